@@ -196,6 +196,8 @@ const fn mul_add(mut ui_a: u32, mut ui_b: u32, mut ui_c: u32, op: MulAddType) ->
             exp_z <<= 28 - reg_z;
             (frac64_z >> (reg_z + 34)) as u32 //frac32Z>>16;
         } else {
+            //remove hidden bits
+            frac64_z &= 0x3FFF_FFFF_FFFF_FFFF;
             if reg_z == 30 {
                 bit_n_plus_one = (exp_z & 0x2) != 0;
                 bits_more = (exp_z & 0x1) != 0;
